@@ -58,6 +58,13 @@ CHECKS["C19"] = dict(
    note="Trusted: z3 (LIRA with to_int), symx, numpy histogram/linspace/sort/argmax semantics as modelled; float rounding at bin edges outside the claim; is_P_Kmodal (sklearn) outside.",
    technique="symbolic execution of the real Python source + z3 (mixed integer/real linear arithmetic); sat models replayed on the real functions",
    ref="3/C19")
+CHECKS["C17"] = dict(
+   text="JokerSamples.wrap_K, get_time_with_phase/get_t0, pack/unpack, __getitem__ (int, negative int, slice, mask, index array, column), copy, mean and median_period (real samples.py under table/unit shims) on symbolic tables: "
+        "z3 proves wrap_K is exactly (K,omega)->(|K|, omega+pi mod 2pi in [0,2pi)) on K<0 rows and the identity elsewhere for omega in rad or deg; the returned time satisfies 2pi(T-t_ref)=P(M0+phase) for P in a symbolic time unit and angles in rad/deg; "
+        "pack converts to the requested units and pack->unpack is physically the identity with names/units/metadata kept; every index expression returns exactly the addressed rows with units, t_ref, poly_trend, n_offsets; median_period returns a member row holding the n//2-th order statistic. <=3 rows.",
+   note="Trusted: z3, symx, astropy table/unit semantics as modelled (meta copied on slicing), cos(x+pi)=-cos x for curve invariance, float pi constants as exact rationals, reals for floats.",
+   technique="symbolic execution of the real Python source + z3 (LIRA with to_int, small NRA for unit scales); sat models replayed on real JokerSamples",
+   ref="3/C17")
 NOT_YET = {}
 ALL = ["C%02d" % i for i in range(1, 20)]
 
